@@ -6,6 +6,10 @@ mod report;
 mod rt;
 #[cfg(feature = "b1")]
 mod sem_struct;
+#[cfg(feature = "b1")]
+mod feat;
+#[cfg(feature = "b1")]
+mod corpus;
 mod xp;
 #[cfg(feature = "b1")]
 mod ir;
